@@ -122,22 +122,23 @@ fn run_fidxf(c: &Case) -> Obs {
 pub fn gen_fasta(rng: &mut Rng) -> Vec<u8> {
     let mut f = Vec::new();
     let crlf = rng.chance(1, 3);
+    let dirty = rng.chance(2, 5);
     let eol = |rng: &mut Rng, f: &mut Vec<u8>| {
-        let flip = rng.chance(1, 12);
+        let flip = dirty && rng.chance(1, 12);
         if crlf != flip {
             f.extend(b"\r\n");
         } else {
             f.push(b'\n');
         }
     };
-    if rng.chance(1, 15) {
+    if dirty && rng.chance(1, 15) {
         f.extend(b"junk");
         eol(rng, &mut f);
     }
     let nrec = rng.below(5);
     for i in 0..nrec {
         f.push(b'>');
-        if !rng.chance(1, 15) {
+        if !(dirty && rng.chance(1, 15)) {
             f.extend(format!("s{i}").as_bytes());
         }
         if rng.chance(1, 3) {
@@ -145,12 +146,12 @@ pub fn gen_fasta(rng: &mut Rng) -> Vec<u8> {
         }
         eol(rng, &mut f);
         let w = rng.range(1, 9) as usize;
-        let full = if rng.chance(1, 10) { 0 } else { rng.below(4) as usize };
+        let full = if dirty && rng.chance(1, 10) { 0 } else { rng.below(4) as usize };
         for _ in 0..full {
             for _ in 0..w {
                 f.push(*rng.pick(b"ACGTN"));
             }
-            match rng.below(30) {
+            match if dirty { rng.below(30) } else { 99 } {
                 0 => f.push(b'A'),          // ragged
                 1 => f.extend(b"\r"),       // stray CR before the terminator
                 2 => f.extend(b">"),        // '>' inside a line
@@ -160,14 +161,14 @@ pub fn gen_fasta(rng: &mut Rng) -> Vec<u8> {
                 _ => {}
             }
             eol(rng, &mut f);
-            if rng.chance(1, 25) {
+            if dirty && rng.chance(1, 25) {
                 eol(rng, &mut f); // blank line
             }
         }
-        let last = rng.below(w as u64 + 1) as usize;
+        let last = if !dirty && full == 0 { rng.range(1, w as u64) as usize } else { rng.below(w as u64 + 1) as usize };
         if last > 0 {
             for j in 0..last {
-                if j + 1 < last && rng.chance(1, 40) {
+                if dirty && j + 1 < last && rng.chance(1, 40) {
                     f.push(b'\r'); // bare CR inside a line
                 } else {
                     f.push(*rng.pick(b"ACGTN"));
@@ -184,8 +185,663 @@ pub fn gen_fasta(rng: &mut Rng) -> Vec<u8> {
 }
 
 // ---------------------------------------------------------------------------------------------
+// fastq record reader, whole file
+
+fn fastq_all<R: BufRead>(r: R, pos: impl Fn(&R) -> usize) -> String {
+    let mut rd = noodles_fastq::io::Reader::new(r);
+    let mut rec = noodles_fastq::Record::default();
+    let mut out: Vec<String> = Vec::new();
+    let end = loop {
+        if out.len() > 4096 {
+            break "Err:TooManyRecords".to_string();
+        }
+        match guarded(AssertUnwindSafe(|| rd.read_record(&mut rec))) {
+            Outcome::Panicked(_) => break "Panic".to_string(),
+            Outcome::Done(Ok(0)) => break "ok".to_string(),
+            Outcome::Done(Ok(_)) => out.push(format!(
+                "{}:{}:{}:{}",
+                hex(rec.name()),
+                hex(rec.description()),
+                hex(rec.sequence()),
+                hex(rec.quality_scores())
+            )),
+            Outcome::Done(Err(e)) => break format!("Err:{}", nv::errkind(&e)),
+        }
+    };
+    format!("{}|{end}|{}", out.join(";"), pos(rd.get_ref()))
+}
+
+fn fastq_index_all<R: BufRead>(mut r: R, pos: impl Fn(&R) -> usize) -> String {
+    let mut ix = noodles_fastq::io::Indexer::new(&mut r);
+    let mut out: Vec<String> = Vec::new();
+    let end = loop {
+        if out.len() > 4096 {
+            break "Err:TooManyRecords".to_string();
+        }
+        match guarded(AssertUnwindSafe(|| ix.index_record())) {
+            Outcome::Panicked(_) => break "Panic".to_string(),
+            Outcome::Done(Ok(None)) => break "ok".to_string(),
+            Outcome::Done(Ok(Some(r))) => out.push(format!(
+                "{}:{}:{}:{}:{}:{}",
+                hex(r.name().as_bytes()),
+                r.length(),
+                r.sequence_offset(),
+                r.line_bases(),
+                r.line_width(),
+                r.quality_scores_offset()
+            )),
+            Outcome::Done(Err(e)) => break format!("Err:{}", nv::errkind(&e)),
+        }
+    };
+    drop(ix);
+    format!("{}|{end}|{}", out.join(";"), pos(&r))
+}
+
+fn run_fqx(c: &Case) -> Obs {
+    let data = c.b(0);
+    let cap = c.u(1) as usize;
+    let script = parse_script(&c.args[2]);
+    let obs = fastq_index_all(BufReader::with_capacity(cap, ScriptedReader::new(data.clone(), script)), bpos);
+    let total = data.len();
+    let plain = fastq_index_all(&data[..], |r: &&[u8]| total - r.len());
+    if obs != plain {
+        return Obs::fail(obs, "fastq-indexer-chunking-dependent", format!("plain slice gives {plain}"));
+    }
+    Obs::ok(obs, data.len() >= 4 && data.contains(&b'\n'))
+}
+
+fn run_fqr(c: &Case) -> Obs {
+    let data = c.b(0);
+    let cap = c.u(1) as usize;
+    let script = parse_script(&c.args[2]);
+    let obs = fastq_all(BufReader::with_capacity(cap, ScriptedReader::new(data.clone(), script)), bpos);
+    let total = data.len();
+    let plain = fastq_all(&data[..], |r: &&[u8]| total - r.len());
+    if obs != plain {
+        let crlf_name = data.split(|&b| b == b'\n').any(|l| {
+            l.first() == Some(&b'@') && l.last() == Some(&b'\r') && !l.contains(&b' ') && !l.contains(&b'\t')
+        });
+        let tag = if crlf_name { "fastq-crlf-name-capacity-dependent" } else { "fastq-reader-chunking-dependent" };
+        return Obs::fail(obs, tag, format!("plain slice gives {plain}"));
+    }
+    Obs::ok(obs, data.len() >= 4 && data.contains(&b'\n'))
+}
+
+/// a FASTQ file: 0-4 records (name, optional description after SP/HT, LF or CRLF), plus malformed
+/// ones: wrong prefixes, missing lines, truncation, CRs and delimiters in odd places
+pub fn gen_fastq(rng: &mut Rng) -> Vec<u8> {
+    let mut f = Vec::new();
+    let crlf = rng.chance(1, 3);
+    let dirty = rng.chance(2, 5);
+    let eol = |rng: &mut Rng, f: &mut Vec<u8>| {
+        let flip = dirty && rng.chance(1, 10);
+        if crlf != flip {
+            f.extend(b"\r\n");
+        } else {
+            f.push(b'\n');
+        }
+    };
+    let nrec = rng.below(5);
+    for i in 0..nrec {
+        f.push(if dirty && rng.chance(1, 25) { b'>' } else { b'@' });
+        f.extend(format!("r{i}").as_bytes());
+        if dirty && rng.chance(1, 10) {
+            f.push(b'\r');
+        }
+        match rng.below(4) {
+            0 => f.extend(b" LN:4 x"),
+            1 => f.extend(b"\td"),
+            _ => {}
+        }
+        eol(rng, &mut f);
+        let n = rng.below(8) as usize;
+        for _ in 0..n {
+            f.push(*rng.pick(b"ACGTN"));
+        }
+        eol(rng, &mut f);
+        if !(dirty && rng.chance(1, 20)) {
+            f.push(if dirty && rng.chance(1, 20) { b'-' } else { b'+' });
+            if rng.chance(1, 4) {
+                f.extend(format!("r{i}").as_bytes());
+            }
+            eol(rng, &mut f);
+        }
+        for _ in 0..n {
+            f.push(*rng.pick(b"!#5I@+ \t"));
+        }
+        if !(i + 1 == nrec && rng.chance(1, 3)) {
+            eol(rng, &mut f);
+        }
+    }
+    if dirty && !f.is_empty() && rng.chance(1, 3) {
+        let cut = rng.below(f.len() as u64) as usize;
+        f.truncate(cut);
+    }
+    if dirty && rng.chance(1, 10) {
+        f.push(b'\r');
+    }
+    f
+}
+
+// ---------------------------------------------------------------------------------------------
+// sam / vcf header readers (header_reader(): the prefix peek on fill_buf windows)
+
+fn raw_lines<H: BufRead>(h: &mut H) -> (Vec<String>, String) {
+    let mut out = Vec::new();
+    loop {
+        if out.len() > 4096 {
+            return (out, "Err:TooManyLines".into());
+        }
+        let mut l = Vec::new();
+        match h.read_until(b'\n', &mut l) {
+            Ok(0) => return (out, "Ok".into()),
+            Ok(_) => out.push(hex(&l)),
+            Err(e) => return (out, format!("Err:{}", nv::errkind(&e))),
+        }
+    }
+}
+
+/// (header lines through header_reader(), status, the remaining lines of the inner reader, position)
+fn header_obs<R: BufRead>(fmt: &str, r: R, pos: impl Fn(&R) -> usize) -> String {
+    let (hl, st, rest, p) = if fmt == "sam" {
+        let mut rd = noodles_sam::io::Reader::new(r);
+        let (hl, st) = raw_lines(&mut rd.header_reader());
+        let p = pos(rd.get_ref());
+        let (rest, _) = raw_lines(rd.get_mut());
+        (hl, st, rest, p)
+    } else {
+        let mut rd = noodles_vcf::io::Reader::new(r);
+        let (hl, st) = raw_lines(&mut rd.header_reader());
+        let p = pos(rd.get_ref());
+        let (rest, _) = raw_lines(rd.get_mut());
+        (hl, st, rest, p)
+    };
+    format!("{}|{st}|{}|{p}", hl.join(";"), rest.join(";"))
+}
+
+/// the real read_header() (adapter + read_line + parser): result and position afterwards
+fn read_header_obs<R: BufRead>(fmt: &str, r: R, pos: impl Fn(&R) -> usize) -> String {
+    if fmt == "sam" {
+        let mut rd = noodles_sam::io::Reader::new(r);
+        let res = match guarded(AssertUnwindSafe(|| rd.read_header())) {
+            Outcome::Panicked(_) => "Panic".to_string(),
+            Outcome::Done(Ok(h)) => format!("{h:?}"),
+            Outcome::Done(Err(e)) => format!("Err:{}", nv::errkind(&e)),
+        };
+        format!("{res}@{}", pos(rd.get_ref()))
+    } else {
+        let mut rd = noodles_vcf::io::Reader::new(r);
+        let res = match guarded(AssertUnwindSafe(|| rd.read_header())) {
+            Outcome::Panicked(_) => "Panic".to_string(),
+            Outcome::Done(Ok(h)) => format!("{h:?}"),
+            Outcome::Done(Err(e)) => format!("Err:{}", nv::errkind(&e)),
+        };
+        format!("{res}@{}", pos(rd.get_ref()))
+    }
+}
+
+fn run_hdr(c: &Case) -> Obs {
+    let fmt = c.args[0].as_str();
+    let data = c.b(1);
+    let cap = c.u(2) as usize;
+    let script = parse_script(&c.args[3]);
+    let total = data.len();
+    let mk = || BufReader::with_capacity(cap, ScriptedReader::new(data.clone(), script.clone()));
+    let obs = header_obs(fmt, mk(), bpos);
+    let plain = header_obs(fmt, &data[..], |r: &&[u8]| total - r.len());
+    if obs != plain {
+        return Obs::fail(obs, &format!("{fmt}-header-reader-chunking-dependent"), format!("plain slice gives {plain}"));
+    }
+    let a = read_header_obs(fmt, mk(), bpos);
+    let b = read_header_obs(fmt, &data[..], |r: &&[u8]| total - r.len());
+    if a != b {
+        let cut = |s: &str| s.chars().take(200).collect::<String>();
+        return Obs::fail(obs, &format!("{fmt}-read-header-chunking-dependent"), format!("delivered {} plain {}", cut(&a), cut(&b)));
+    }
+    Obs::ok(obs, data.len() >= 4 && data.contains(&b'\n'))
+}
+
+pub fn gen_header_text(rng: &mut Rng, fmt: &str) -> Vec<u8> {
+    let mut f = Vec::new();
+    let crlf = rng.chance(1, 3);
+    let dirty = rng.chance(2, 5);
+    let p = if fmt == "sam" { b'@' } else { b'#' };
+    let eol = |rng: &mut Rng, f: &mut Vec<u8>| {
+        let flip = dirty && rng.chance(1, 10);
+        if crlf != flip {
+            f.extend(b"\r\n");
+        } else {
+            f.push(b'\n');
+        }
+    };
+    let nh = rng.below(5);
+    for i in 0..nh {
+        if fmt == "sam" {
+            match if dirty { rng.below(6) } else { i.min(2) } {
+                0 => f.extend(b"@HD\tVN:1.6"),
+                1 => f.extend(format!("@SQ\tSN:s{i}\tLN:{}", rng.range(1, 99)).as_bytes()),
+                2 => f.extend(b"@CO\tsome @ text"),
+                3 => f.extend(b"@"),
+                4 => f.extend(b"@XX"),
+                _ => f.extend(b"@CO\t\r"),
+            }
+        } else {
+            match if dirty { rng.below(6) } else if i + 1 == nh { 2 } else { i.min(1) } {
+                0 => f.extend(b"##fileformat=VCFv4.3"),
+                1 => f.extend(format!("##k{i}=v#{}", rng.range(1, 99)).as_bytes()),
+                2 => f.extend(b"#CHROM\tPOS\tID\tREF\tALT\tQUAL\tFILTER\tINFO"),
+                3 => f.extend(b"#"),
+                4 => f.extend(b"##"),
+                _ => f.extend(b"##x=\r"),
+            }
+        }
+        if !(dirty && rng.chance(1, 12)) {
+            eol(rng, &mut f);
+        }
+        if dirty && rng.chance(1, 15) {
+            eol(rng, &mut f); // blank line inside the header
+        }
+    }
+    let nr = rng.below(4);
+    for i in 0..nr {
+        if dirty && rng.chance(1, 6) {
+            f.push(p); // a prefixed line after the first record
+        }
+        if fmt == "sam" {
+            f.extend(format!("r{i}\t4\t*\t0\t255\t*\t*\t0\t0\t*\t*").as_bytes());
+            if dirty && rng.chance(1, 5) {
+                f.extend(b"\tCO:Z:@x");
+            }
+        } else {
+            f.extend(format!("sq0\t{}\t.\tA\t.\t.\tPASS\t#.", i + 1).as_bytes());
+        }
+        if !(i + 1 == nr && rng.chance(1, 3)) {
+            eol(rng, &mut f);
+        }
+    }
+    f
+}
+
+// ---------------------------------------------------------------------------------------------
+// bgzf::io::Reader over a chunked source (frame reader = two read_exact calls per frame)
+
+fn bgzf_obs<R: std::io::Read>(r: R) -> String {
+    let mut rd = noodles_bgzf::io::Reader::new(r);
+    let mut blocks: Vec<String> = Vec::new();
+    let status = loop {
+        if blocks.len() > 4096 {
+            break "Err:TooManyBlocks".to_string();
+        }
+        match guarded(AssertUnwindSafe(|| rd.fill_buf().map(|b| b.to_vec()))) {
+            Outcome::Panicked(_) => break "Panic".to_string(),
+            Outcome::Done(Ok(b)) if b.is_empty() => break "Ok".to_string(),
+            Outcome::Done(Ok(b)) => {
+                let co = rd.virtual_position().compressed();
+                blocks.push(format!("{co}:{}", hex(&b)));
+                rd.consume(b.len());
+            }
+            Outcome::Done(Err(e)) => break format!("Err:{}", nv::errkind(&e)),
+        }
+    };
+    format!("{}|{}|{status}", blocks.join(";"), rd.position())
+}
+
+fn run_bgzr(c: &Case) -> Obs {
+    let data = c.b(0);
+    let cap = c.u(1) as usize;
+    let script = parse_script(&c.args[2]);
+    let src = ScriptedReader::new(data.clone(), script);
+    let obs = if cap == 0 { bgzf_obs(src) } else { bgzf_obs(BufReader::with_capacity(cap, src)) };
+    let plain = bgzf_obs(&data[..]);
+    if obs != plain {
+        return Obs::fail(obs, "bgzf-reader-chunking-dependent", format!("plain slice gives {plain}"));
+    }
+    Obs::ok(obs, data.len() >= 18)
+}
+
+pub fn gen_bgzf(rng: &mut Rng) -> Vec<u8> {
+    use super::c12_files::{bgzip, malform, random_breaks};
+    let n = rng.below(120) as usize;
+    let payload: Vec<u8> = match rng.below(3) {
+        0 => rng.bytes(n),
+        1 => (0..n).map(|_| *rng.pick(b"ACGT\n")).collect(),
+        _ => vec![b'A'; n],
+    };
+    let breaks = random_breaks(rng, payload.len());
+    let f = bgzip(&payload, &breaks, rng.chance(3, 4));
+    match rng.below(10) {
+        0 => malform(rng, &f, "trunc"),
+        1 => malform(rng, &f, "trunc-tail"),
+        2 => {
+            // corrupt a header / BSIZE / trailer byte of some frame (not the deflate stream)
+            let mut g = f.clone();
+            if !g.is_empty() {
+                let mut starts = vec![0usize];
+                let mut at = 0usize;
+                while at + 18 <= g.len() {
+                    let bs = u16::from_le_bytes([g[at + 16], g[at + 17]]) as usize + 1;
+                    at += bs;
+                    if at < g.len() {
+                        starts.push(at);
+                    }
+                }
+                let s0 = *rng.pick(&starts);
+                let off = *rng.pick(&[0usize, 2, 3, 10, 12, 14, 16, 17]);
+                if s0 + off < g.len() {
+                    g[s0 + off] ^= 1 << rng.below(8);
+                }
+            }
+            g
+        }
+        3 => malform(rng, &f, "tail"),
+        4 => {
+            let mut g = f.clone();
+            let k = g.len().saturating_sub(rng.range(1, 8) as usize);
+            if k < g.len() {
+                g[k] ^= 1 << rng.below(8); // CRC / ISIZE of the last frame
+            }
+            g
+        }
+        _ => f,
+    }
+}
+
+// ---------------------------------------------------------------------------------------------
+// bed record reader (field scanner over fill_buf windows), one reused Record<N>, going on after errors
+
+fn acc(f: impl FnOnce() -> String) -> String {
+    match guarded(AssertUnwindSafe(f)) {
+        Outcome::Done(s) => s,
+        Outcome::Panicked(_) => "Panic".into(),
+    }
+}
+
+fn res_str<T>(r: std::io::Result<T>, f: impl FnOnce(T) -> String) -> String {
+    match r {
+        Ok(v) => f(v),
+        Err(e) => format!("Err:{}", nv::errkind(&e)),
+    }
+}
+
+fn opt_pos(p: Option<std::io::Result<noodles_core::Position>>) -> String {
+    match p {
+        None => ".".into(),
+        Some(r) => res_str(r, |p| usize::from(p).to_string()),
+    }
+}
+
+fn join_others<'a>(it: impl Iterator<Item = &'a [u8]>) -> String {
+    let v: Vec<String> = it.map(hex).collect();
+    if v.is_empty() { "-".into() } else { v.join(",") }
+}
+
+macro_rules! bed_loop {
+    ($n:literal, $r:expr, $fuel:expr, $nm:expr) => {{
+        use bstr::ByteSlice;
+        let mut reader = noodles_bed::io::Reader::<$n, _>::new($r);
+        let mut rec = noodles_bed::Record::<$n>::default();
+        let mut out: Vec<String> = Vec::new();
+        for _ in 0..$fuel {
+            let r = guarded(AssertUnwindSafe(|| reader.read_record(&mut rec)));
+            let (res, stop) = match r {
+                Outcome::Panicked(_) => ("Panic".to_string(), true),
+                Outcome::Done(Ok(0)) => ("0".to_string(), true),
+                Outcome::Done(Ok(k)) => (k.to_string(), false),
+                Outcome::Done(Err(e)) => (format!("Err:{}", nv::errkind(&e)), false),
+            };
+            let x = &rec;
+            let nmf: fn(&noodles_bed::Record<$n>) -> String = $nm;
+            let view = [
+                acc(|| hex(x.reference_sequence_name())),
+                acc(|| res_str(x.feature_start(), |p| usize::from(p).to_string())),
+                acc(|| opt_pos(x.feature_end())),
+                nmf(x),
+                acc(|| join_others(x.other_fields().iter().map(|s| s.as_bytes()))),
+            ]
+            .join("|");
+            out.push(format!("{res}/{view}"));
+            if stop {
+                break;
+            }
+        }
+        out.join(";")
+    }};
+}
+
+fn bed_all<R: BufRead>(n: usize, r: R, fuel: usize) -> String {
+    match n {
+        3 => bed_loop!(3, r, fuel, |_x| "~".to_string()),
+        _ => bed_loop!(4, r, fuel, |x| acc(|| x.name().map(|n| hex(n)).unwrap_or("-".into()))),
+    }
+}
+
+fn run_bedr(c: &Case) -> Obs {
+    let n = c.u(0) as usize;
+    let data = c.b(1);
+    let cap = c.u(2) as usize;
+    let script = parse_script(&c.args[3]);
+    let fuel = c.u(4) as usize;
+    let obs = bed_all(n, BufReader::with_capacity(cap, ScriptedReader::new(data.clone(), script)), fuel);
+    let plain = bed_all(n, &data[..], fuel);
+    if obs != plain {
+        return Obs::fail(obs, "bed-reader-chunking-dependent", format!("plain slice gives {plain}"));
+    }
+    Obs::ok(obs, data.len() >= 4 && data.contains(&b'\t'))
+}
+
+pub fn gen_bed(rng: &mut Rng, n: usize) -> Vec<u8> {
+    let mut f = Vec::new();
+    let crlf = rng.chance(1, 3);
+    let dirty = rng.chance(2, 5);
+    let lines = rng.below(6);
+    for li in 0..lines {
+        let last = li + 1 == lines;
+        match rng.below(10) {
+            0 => {
+                f.extend(b"#comment\twith tab");
+                if rng.chance(1, 4) {
+                    f.push(b'\r');
+                }
+                if !(last && rng.chance(1, 2)) {
+                    f.push(b'\n');
+                }
+                continue;
+            }
+            1 if dirty => {
+                f.push(b'\n');
+                continue;
+            }
+            _ => {}
+        }
+        let cols = if dirty {
+            match rng.below(6) {
+                0 => rng.range(1, n as u64) as usize,
+                1 => n.saturating_sub(1).max(1),
+                _ => n + rng.below(4) as usize,
+            }
+        } else {
+            n + rng.below(3) as usize
+        };
+        for ci in 0..cols {
+            if ci > 0 {
+                f.push(b'\t');
+            }
+            let fld: Vec<u8> = match (ci, if dirty { rng.below(10) } else { 9 }) {
+                (_, 0) => Vec::new(),
+                (_, 1) => b"\r".to_vec(),
+                (_, 2) => b"a\rb".to_vec(),
+                (_, 3) => b"#x".to_vec(),
+                (0, _) => format!("chr{}", rng.range(1, 22)).into_bytes(),
+                (1, _) => rng.range(0, 1000).to_string().into_bytes(),
+                (2, _) => rng.range(1000, 2000).to_string().into_bytes(),
+                _ => (*rng.pick(&["gene", ".", "0", "+", "x y"])).as_bytes().to_vec(),
+            };
+            f.extend(fld);
+        }
+        if !(last && rng.chance(1, 3)) {
+            if crlf {
+                f.push(b'\r');
+            }
+            f.push(b'\n');
+        }
+    }
+    f
+}
+
+// ---------------------------------------------------------------------------------------------
+// lazy sam / vcf record readers (field scanners over fill_buf windows)
+
+fn sam_records<R: BufRead>(r: R, pos: impl Fn(&R) -> usize) -> (String, Vec<String>) {
+    let mut rd = noodles_sam::io::Reader::new(r);
+    let mut rec = noodles_sam::Record::default();
+    let mut out: Vec<String> = Vec::new();
+    let mut dbg: Vec<String> = Vec::new();
+    loop {
+        if out.len() > 4096 {
+            out.push("Err:TooManyRecords".into());
+            break;
+        }
+        match guarded(AssertUnwindSafe(|| rd.read_record(&mut rec))) {
+            Outcome::Panicked(_) => {
+                out.push("Panic".into());
+                break;
+            }
+            Outcome::Done(Ok(n)) => {
+                out.push(n.to_string());
+                if n == 0 {
+                    break;
+                }
+                dbg.push(acc(|| format!("{rec:?}")));
+            }
+            Outcome::Done(Err(e)) => {
+                out.push(format!("Err:{}", nv::errkind(&e)));
+                break;
+            }
+        }
+    }
+    (format!("{}|{}", out.join(","), pos(rd.get_ref())), dbg)
+}
+
+fn vcf_records<R: BufRead>(r: R, pos: impl Fn(&R) -> usize) -> (String, Vec<String>) {
+    let mut rd = noodles_vcf::io::Reader::new(r);
+    let mut rec = noodles_vcf::Record::default();
+    let mut out: Vec<String> = Vec::new();
+    let mut dbg: Vec<String> = Vec::new();
+    loop {
+        if out.len() > 4096 {
+            out.push("Err:TooManyRecords".into());
+            break;
+        }
+        match guarded(AssertUnwindSafe(|| rd.read_record(&mut rec))) {
+            Outcome::Panicked(_) => {
+                out.push("Panic".into());
+                break;
+            }
+            Outcome::Done(Ok(0)) => {
+                out.push("0".into());
+                break;
+            }
+            Outcome::Done(Ok(n)) => {
+                let x = &rec;
+                let view = [
+                    acc(|| hex(x.reference_sequence_name().as_bytes())),
+                    acc(|| hex(x.ids().as_ref().as_bytes())),
+                    acc(|| hex(x.reference_bases().as_bytes())),
+                    acc(|| hex(x.alternate_bases().as_ref().as_bytes())),
+                    acc(|| hex(x.filters().as_ref().as_bytes())),
+                    acc(|| hex(x.info().as_ref().as_bytes())),
+                ]
+                .join(":");
+                out.push(format!("{n}/{view}"));
+                dbg.push(acc(|| format!("{rec:?}")));
+            }
+            Outcome::Done(Err(e)) => {
+                out.push(format!("Err:{}", nv::errkind(&e)));
+                break;
+            }
+        }
+    }
+    (format!("{}|{}", out.join(","), pos(rd.get_ref())), dbg)
+}
+
+fn run_tabr(c: &Case) -> Obs {
+    let sam = c.kind == "samr";
+    let data = c.b(0);
+    let cap = c.u(1) as usize;
+    let script = parse_script(&c.args[2]);
+    let total = data.len();
+    let src = BufReader::with_capacity(cap, ScriptedReader::new(data.clone(), script));
+    let ((obs, dbg), (plain, pdbg)) = if sam {
+        (sam_records(src, bpos), sam_records(&data[..], |r: &&[u8]| total - r.len()))
+    } else {
+        (vcf_records(src, bpos), vcf_records(&data[..], |r: &&[u8]| total - r.len()))
+    };
+    if obs != plain || dbg != pdbg {
+        let non_ascii = data.iter().any(|&b| b >= 0x80);
+        let tag = if !sam && non_ascii {
+            "vcf-record-field-utf8-split-capacity-dependent".to_string()
+        } else {
+            format!("{}-record-reader-chunking-dependent", if sam { "sam" } else { "vcf" })
+        };
+        return Obs::fail(obs, &tag, format!("plain slice gives {plain}"));
+    }
+    Obs::ok(obs, data.len() >= 4 && data.contains(&b'\t'))
+}
+
+/// tab-separated record lines for the lazy sam (11+ fields) / vcf (8+ fields) readers, with short
+/// lines, blank lines, CRLF, CRs inside fields, a missing final LF; vcf: sometimes a multi-byte
+/// character (the known class)
+pub fn gen_tab(rng: &mut Rng, sam: bool, allow_utf8: bool) -> Vec<u8> {
+    let mut f = Vec::new();
+    let crlf = rng.chance(1, 3);
+    let dirty = rng.chance(2, 5);
+    let need = if sam { 11 } else { 8 };
+    let lines = rng.below(5);
+    for li in 0..lines {
+        let last = li + 1 == lines;
+        if dirty && rng.chance(1, 10) {
+            f.push(b'\n');
+            continue;
+        }
+        let cols = if dirty {
+            match rng.below(6) {
+                0 => rng.range(1, need as u64 - 1) as usize,
+                1 => need - 1,
+                _ => need + rng.below(4) as usize,
+            }
+        } else {
+            need + rng.below(3) as usize
+        };
+        for ci in 0..cols {
+            if ci > 0 {
+                f.push(b'\t');
+            }
+            let fld: Vec<u8> = match if dirty { rng.below(12) } else { 11 } {
+                0 => Vec::new(),
+                1 => b"a\rb".to_vec(),
+                2 => b".".to_vec(),
+                3 if allow_utf8 => "r\u{e9}\u{20ac}".as_bytes().to_vec(),
+                _ => {
+                    let n = rng.range(1, 5) as usize;
+                    (0..n).map(|_| *rng.pick(b"ACGT0123456789*=.;:")).collect()
+                }
+            };
+            f.extend(fld);
+        }
+        if !(last && rng.chance(1, 3)) {
+            if crlf {
+                f.push(b'\r');
+            }
+            f.push(b'\n');
+        }
+    }
+    f
+}
+
+// ---------------------------------------------------------------------------------------------
 
 pub fn generate(rng: &mut Rng, thorough: bool, w: &mut CaseWriter) {
+    generate_known(rng, w);
     let caps = [1usize, 2, 3, 5, 7, 16, 64];
     let n = if thorough { 3000 } else { 250 };
     for _ in 0..n {
@@ -195,11 +851,60 @@ pub fn generate(rng: &mut Rng, thorough: bool, w: &mut CaseWriter) {
         let cap = *rng.pick(&caps);
         w.push("fidxf", vec![hex(&f), cap.to_string(), fmt_script(&script)]);
     }
+    for _ in 0..n {
+        let f = gen_fastq(rng);
+        let with_intr = rng.chance(1, 3);
+        let script = random_script(rng, f.len(), with_intr);
+        let cap = *rng.pick(&caps);
+        let fmt = if rng.chance(1, 2) { "sam" } else { "vcf" };
+        let h = gen_header_text(rng, fmt);
+        let wi = rng.chance(1, 3);
+        let script = random_script(rng, h.len(), wi);
+        w.push("hdr", vec![fmt.to_string(), hex(&h), rng.pick(&caps).to_string(), fmt_script(&script)]);
+        let bn = *rng.pick(&[3usize, 3, 4]);
+        let b = gen_bed(rng, bn);
+        let wi = rng.chance(1, 3);
+        let script = random_script(rng, b.len(), wi);
+        w.push("bedr", vec![bn.to_string(), hex(&b), rng.pick(&caps).to_string(), fmt_script(&script), "8".into()]);
+        let is_sam = rng.chance(1, 2);
+        let t = gen_tab(rng, is_sam, false);
+        let wi = rng.chance(1, 3);
+        let script = random_script(rng, t.len(), wi);
+        w.push(if is_sam { "samr" } else { "vcfr" }, vec![hex(&t), rng.pick(&caps).to_string(), fmt_script(&script)]);
+        let z = gen_bgzf(rng);
+        let wi = rng.chance(1, 3);
+        let script = random_script(rng, z.len(), wi);
+        let zcap = *rng.pick(&[0usize, 0, 1, 3, 7, 16, 64, 4096]);
+        w.push("bgzr", vec![hex(&z), zcap.to_string(), fmt_script(&script)]);
+        let kind = if rng.chance(1, 3) { "fqx" } else { "fqr" };
+        w.push(kind, vec![hex(&f), cap.to_string(), fmt_script(&script)]);
+    }
+}
+
+pub fn generate_known(rng: &mut Rng, w: &mut CaseWriter) {
+    // the known class: VCF record fields with multi-byte characters (model and implementation agree
+    // case by case; the verdict compares with the one-window result)
+    for cap in [1usize, 2, 3, 64] {
+        let t = "sq0\t1\trs\u{e9}\tA\t.\t.\tPASS\tN=\u{20ac}\n".as_bytes().to_vec();
+        let script = random_script(rng, t.len(), false);
+        w.push("vcfr", vec![hex(&t), cap.to_string(), fmt_script(&script)]);
+    }
+    for _ in 0..6 {
+        let t = gen_tab(rng, false, true);
+        let script = random_script(rng, t.len(), false);
+        w.push("vcfr", vec![hex(&t), rng.pick(&[1usize, 2, 3, 5, 7, 16, 64]).to_string(), fmt_script(&script)]);
+    }
 }
 
 pub fn run(c: &Case) -> Option<Obs> {
     match c.kind.as_str() {
         "fidxf" => Some(run_fidxf(c)),
+        "fqr" => Some(run_fqr(c)),
+        "fqx" => Some(run_fqx(c)),
+        "hdr" => Some(run_hdr(c)),
+        "bgzr" => Some(run_bgzr(c)),
+        "bedr" => Some(run_bedr(c)),
+        "samr" | "vcfr" => Some(run_tabr(c)),
         _ => None,
     }
 }
